@@ -495,7 +495,13 @@ var boundedChecks = map[string][]BoundedCheck{
 	"C03": {{Name: "types.BidsByPrice", What: "assumed contract of types.BidsByPrice (order book = regrouping of the bids by strictly descending price)",
 		Bound:    "BOUNDED: all lists of up to 4 bids and every 97th list of 5 bids over 24 bid shapes (3 prices x 2 bidders x 2 bid types x 2 amounts)",
 		TestFile: "/verif/conformance/bidsbyprice_conformance_test.go", InPkgDir: "x/fundraising/types", Run: "TestZZConformanceBidsByPrice"}},
+	"C02": {settlementTransfers},
+	"C01": {settlementTransfers},
 }
+
+var settlementTransfers = BoundedCheck{Name: "keeper.AllocateSellingCoin+RefundPayingCoin", What: "assumed interface contracts of Keeper.AllocateSellingCoin and Keeper.RefundPayingCoin (every bidder of the map receives exactly their amount from the respective escrow, nobody else is touched)",
+	Bound:    "BOUNDED: every assignment of the amounts {0, 1, 5} to three bidders, both functions (54 runs on the simulated application)",
+	TestFile: "/verif/conformance/settlement_transfers_conformance_test.go", InPkgDir: "x/fundraising/keeper", Run: "TestKeeperTestSuite/TestZZConformanceSettlementTransfers"}
 
 func (V *Verifier) runBounded(bc BoundedCheck) map[string]interface{} {
 	out := map[string]interface{}{"name": bc.Name, "what": bc.What, "bound": bc.Bound, "label": "bounded"}
